@@ -122,6 +122,27 @@ def _check(task):
                 for (r, s), dd in zip(got_pairs, d[0]):
                     if sq[0, r, s] != dd or sq[0, s, r] != dd:
                         probs.append("squareform places a contact distance in the wrong cell"); break
+    # ---- a residue pair for which the scheme designates NO atom pair (water has no side chain; HOH has no CA): the call may refuse;
+    #      if it answers, that column must not be a finite positive distance and every other column must still be its own minimum ----
+    mixed = [(1, 3), (1, 5), (2, 4), (5, 9), (3, 7)]                 # 1-based; residues 5 and 9 are waters
+    for si, scheme in enumerate(SCHEMES):
+        if scheme in ("closest", "closest-heavy"):
+            continue
+        try:
+            d, rp = md.compute_contacts(t, np.array(mixed) - 1, scheme=scheme, periodic=per)
+        except Exception:
+            continue
+        got_pairs = [tuple(int(x) + 1 for x in row) for row in rp]
+        for (r, s_), dd in zip(got_pairs, d[0]):
+            hit = [x for x in exp["mixed"][si] if (x[0], x[1]) == (r, s_)]
+            if not hit:
+                probs.append("compute_contacts(%s) labels a pair (%d, %d) that was not requested" % (scheme, r, s_)); break
+            d2 = hit[0][2]
+            if d2 < 0:
+                if np.isfinite(dd) and dd > 0:
+                    probs.append("compute_contacts(%s): residue pair %d-%d has no designated atom pair, yet a distance %.4f is reported" % (scheme, r, s_, dd)); break
+            elif abs((dd / G) ** 2 - d2) > tol2(d2):
+                probs.append("compute_contacts(%s) with an empty pair in the list: residues %d-%d report %.4f, their minimum is %.4f" % (scheme, r, s_, dd, np.sqrt(d2) * G)); break
     # ---- centres, radius of gyration, gyration tensor and shape descriptors ----
     com = md.compute_center_of_mass(t)[0]
     if np.abs(com - np.array(exp["com"]) / exp["mass"] * G).max() > 3e-4:
